@@ -1,7 +1,7 @@
 //! C05 — cursor movement and addressing clamp to the screen and the scroll region.
 
 use super::{product, radix, PropRun};
-use crate::case::{Case, Verdict};
+use crate::case::{Call, Case, Verdict};
 use crate::engine::{random_part, run_part, Env, EvidenceMeta, Tally};
 use crate::gen;
 use crate::reffn::RefFn;
@@ -246,6 +246,60 @@ pub fn run(env: &Env) -> PropRun {
         parts.push(random_part(env, "large-screens", env.tier.scale(800, 40), &gl, &j));
     }
     let n = env.tier.scale(60_000, 40);
+    {
+        let mut ml: Vec<Case> = vec![];
+        let leaves = ["\x1b[?1047;6l", "\x1b[?47;6l", "\x1b[?6;1047l", "\x1b[?1047;6;7l", "\x1b[?1049;6l", "\x1b[?6;1049l", "\x1b[?1047l\x1b[?6l", "\x1b[?1047;6h", "\x1b[?47;7;6l", "\u{9b}?1047;25;6l"];
+        for (cols, rows) in [(4usize, 3usize), (6, 4)] {
+            for enter in ["\x1b[?1047h", "\x1b[?1049h", "\x1b[?47h"] {
+                for (dc, dr) in [(0isize, 2isize), (3, 0), (-2, 0), (0, -1), (2, 2), (-1, 1)] {
+                    for leave in leaves {
+                        let text: String = (0..cols * (rows + 3)).map(|k| (b'a' + (k % 26) as u8) as char).collect();
+                        let mut c = Case::new(cols, rows, None).feed(format!("{}\x1b[2;2H\x1b[?6h{}xy\x1b[2;1H", text, enter));
+                        c.calls.push(Call::Resize((cols as isize + dc).max(1) as usize, (rows as isize + dr).max(1) as usize));
+                        c.calls.push(Call::FeedStr(leave.to_string()));
+                        c.calls.push(Call::FeedStr("\x1b[B\x1b[C".into()));
+                        ml.push(c);
+                    }
+                }
+            }
+        }
+        // Direct reading of "toggling origin mode homes it": when, in the list fed last but
+        // one, the origin toggle comes after the screen switch, the cursor must be in the home
+        // position when that call returns - the one-step model cannot say so, because it
+        // treats the cursor as unspecified across a return to a parked, resized primary.
+        // (Written against the shape of the case, not its indices: the shrinker removes calls.)
+        fn homes_last(l: &str) -> bool {
+            let Some(rest) = l.strip_prefix("\x1b[?").or_else(|| l.strip_prefix("\u{9b}?")) else { return false };
+            let Some(body) = rest.strip_suffix('l').or_else(|| rest.strip_suffix('h')) else { return false };
+            if body.is_empty() || !body.chars().all(|ch| ch.is_ascii_digit() || ch == ';') {
+                return false;
+            }
+            let toks: Vec<&str> = body.split(';').filter(|t| !t.is_empty()).collect();
+            let p6 = toks.iter().rposition(|t| *t == "6");
+            let pa = toks.iter().rposition(|t| matches!(*t, "47" | "1047" | "1049"));
+            matches!((p6, pa), (Some(a), Some(b)) if a > b) && toks.iter().all(|t| matches!(*t, "6" | "7" | "25" | "47" | "1047" | "1049"))
+        }
+        let jm = |c: &Case, t: &mut Tally| -> Verdict {
+            let v = judge("", c, t);
+            let n = c.calls.len();
+            if v != Verdict::Pass || n < 2 {
+                return v;
+            }
+            let Call::FeedStr(l) = &c.calls[n - 2] else { return v };
+            if !homes_last(l) || c.calls.iter().any(|x| matches!(x, Call::FeedStr(s) if s.as_bytes().windows(2).any(|w| w[1] == b'r' && (w[0].is_ascii_digit() || w[0] == b'[' || w[0] == b';')))) {
+                return v;
+            }
+            let mut vt = crate::case::new_vt(c.cols, c.rows, c.limit);
+            crate::case::apply_calls(&mut vt, &c.calls[..n - 1]);
+            let cur = vt.cursor();
+            if (cur.col, cur.row) != (0, 0) {
+                return Verdict::fail("mode-list-home", format!("after {:?} (origin mode toggled last, full-screen margins) the cursor is at ({},{}), not in the home position", l, cur.col, cur.row));
+            }
+            Verdict::Pass
+        };
+        let j = jm;
+        parts.push(run_part(env, "enum-mode-lists-after-excursion", ml.len(), true, "2 sizes x 3 ways into the alternate screen x 6 resizes during the excursion x 10 DECRST/DECSET lists that switch back and toggle origin mode (or other modes) in one sequence, in both orders", &|i| ml.get(i).cloned(), &j));
+    }
     parts.push(random_part(env, "random-histories", n, &gen_random, &j));
     PropRun {
         parts,
